@@ -161,6 +161,8 @@ func genNitro(variant string, seed uint64, tier string) *Plan {
 			errShard, errN := -1, 0
 			if r.Bool(0.3) {
 				errShard, errN = r.Intn(shards), r.Intn(3)
+			} else if r.Bool(0.15) {
+				errShard = -2 // every callback fails (all workers stop early)
 			}
 			return Op{K: "visit", A: []int{sidx, shards, r.Range(1, 8), errShard, errN}}
 		case x < 9:
@@ -377,7 +379,13 @@ func runNitro(env *Env) {
 	}
 
 	// stage A: the whole history, to quiescence
-	if v := s.Run(); !env.Finish(v, "C06") {
+	v := s.Run()
+	if v == VHang && ne.inVisit > 0 {
+		env.Res.Verdict = v.String()
+		env.Violate("C10", "visitor-does-not-terminate", "nothing is runnable while %d Visitor call(s) are in progress: %v", ne.inVisit, s.Describe())
+		return
+	}
+	if !env.Finish(v, "C06") {
 		if v == VBudget && ne.inVisit > 0 {
 			env.Violate("C10", "visitor-does-not-terminate", "step budget of %d yield points exhausted while %d Visitor call(s) were in progress: %v", s.Steps(), ne.inVisit, s.Describe())
 		}
@@ -614,7 +622,7 @@ func (ne *nitroEnv) execVisit(name string, rec *snapRec, op Op) {
 		s.Yield(SiteHarnessCallback)
 		n := perShard[shard]
 		perShard[shard] = n + 1
-		if shard == errShard && n == errN {
+		if (shard == errShard && n == errN) || errShard == -2 {
 			injected = true
 			ne.env.FaultFired("visitor_callback_error")
 			return errInjected
